@@ -62,6 +62,10 @@ def load_registry():
         modpath = rel[:-3].replace("/mod", "").replace("/", "::")
         for mod, hfile in mods:
             mounts[hfile] = modpath + "::" + mod
+    # harness files mounted inside generated modules of extracted items (module path in the slice crate
+    # differs from the path in the real crate: harness names are unique, replay selects by name)
+    mounts["h_io_state.rs"] = "io_state::verif_io_state"
+    replay_paths = {"h_io_state.rs": "io::verif_io_state"}
     for hfile, modpath in mounts.items():
         p = os.path.join(HARN, hfile)
         if not os.path.exists(p):
@@ -98,6 +102,7 @@ def load_registry():
                     h = {
                         "name": name,
                         "fq": modpath + "::" + name,
+                        "fq_replay": replay_paths.get(hfile, modpath) + "::" + name,
                         "file": hfile,
                         "props": ann.get("props", "").split(),
                         "tier": ann.get("tier", "quick"),
@@ -362,7 +367,7 @@ def replay_native(h, vals, profile_release=False):
         cmd = ["cargo", "test", "--offline", "--lib"]
         if profile_release:
             cmd.append("--release")
-        cmd += ["--", "--exact", h["fq"], "--nocapture", "--test-threads", "1"]
+        cmd += ["--", "--exact", h.get("fq_replay", h["fq"]), "--nocapture", "--test-threads", "1"]
         rc, out, dt, to = run(cmd, cwd=rdir, timeout=1800, env=env)
     if to or "error: could not compile" in out or "error[E" in out:
         return None, out[-4000:]
